@@ -17,30 +17,45 @@ def issued : List Ev → List Nat
   | .requestCut r :: es => r :: issued es
   | _ :: es => issued es
 
-/-- FRESH TOKEN: the token source is asked once per connect attempt, and attempts are exactly the redials performed while reconnecting -/
+/-- FRESH TOKEN: the token source is asked once per connect attempt; an attempt starts when an outage begins and after every failed attempt -/
 theorem C05.token_per_attempt (evs : List Ev) :
     (run {} evs).tokens = (run {} evs).dials ∧ (run {} evs).dials = 1 + attempts {} evs := by
-  sorry
+  have h := (inv_reach evs).i1.tok
+  have hd := run_dials {} evs
+  exact ⟨h, by rw [hd]⟩
 
-/-- ONCE PER OUTAGE: disconnected notifications count the outages, reconnected notifications the recoveries, and they alternate -/
+/-- ONCE PER OUTAGE: disconnected notifications count the outages (plus the Close of a live connection, whose run loop ends),
+    reconnected notifications the recoveries, and they alternate -/
 theorem C05.events_once_per_outage (evs : List Ev) :
-    (run {} evs).disc = outages {} evs ∧ (run {} evs).reconn = recoveries {} evs ∧
+    (run {} evs).disc = outages {} evs + liveCloses {} evs ∧ (run {} evs).reconn = recoveries {} evs ∧
     (run {} evs).reconn ≤ (run {} evs).disc ∧ (run {} evs).disc ≤ (run {} evs).reconn + 1 ∧
     ((run {} evs).status = .connected → (run {} evs).disc = (run {} evs).reconn) ∧
-    ((run {} evs).status = .reconnecting → (run {} evs).disc = (run {} evs).reconn + 1) ∧
+    ((run {} evs).status ≠ .connected → (run {} evs).disc = (run {} evs).reconn + 1) ∧
     (run {} evs).inc = (run {} evs).reconn + 1 := by
-  sorry
+  have h := (inv_reach evs).i1
+  have hd := run_disc {} evs
+  have hr := run_reconn {} evs
+  have hc := h.conn
+  have hn := h.nconn
+  refine ⟨by rw [hd]; simp, by rw [hr]; simp, ?_, ?_, hc, hn, h.inc⟩
+  · by_cases hs : (run {} evs).status = .connected
+    · have := hc hs; omega
+    · have := hn hs; omega
+  · by_cases hs : (run {} evs).status = .connected
+    · have := hc hs; omega
+    · have := hn hs; omega
 
 /-- IDENTITY: a stream keeps its stream id, direction and alias through every event; stream ids are never reused -/
 theorem C05.identity_stable (evs : List Ev) (e : Ev) :
     (∀ x ∈ (run {} evs).streams, ∃ y ∈ (step (run {} evs) e).streams, y.sid = x.sid ∧ y.dir = x.dir ∧ y.streamAlias = x.streamAlias) ∧
     ((run {} evs).streams.map (·.sid)).Nodup ∧ (∀ x ∈ (run {} evs).streams, x.sid < (run {} evs).nextSid) := by
-  sorry
+  have h := (inv_reach evs).i2
+  exact ⟨step_streams_pres _ e, h.1, h.2.1⟩
 
 /-- … and every resume request that was answered carried the stream's original id and alias -/
 theorem C05.resume_under_original_identity (evs : List Ev) :
     ∀ r ∈ (run {} evs).resumes, ∃ x ∈ (run {} evs).streams, x.sid = r.2.1 ∧ x.streamAlias = r.2.2 ∧ 2 ≤ r.1 ∧ r.1 ≤ (run {} evs).inc := by
-  sorry
+  exact (inv_reach evs).i3
 
 /-- a successful resume re-attaches exactly that stream and notifies once -/
 theorem C05.resume_ok_reattaches (s : St) (sid : Nat) (x : Stream) (hs : s.status = .connected) (hx : x ∈ s.streams)
@@ -48,7 +63,16 @@ theorem C05.resume_ok_reattaches (s : St) (sid : Nat) (x : Stream) (hs : s.statu
     { x with st := .opened, resumedEv := x.resumedEv + 1 } ∈ (step s (.resume sid .ok)).streams ∧
     (∀ y ∈ s.streams, y.sid ≠ sid → y ∈ (step s (.resume sid .ok)).streams) ∧
     (step s (.resume sid .ok)).status = .connected := by
-  sorry
+  have hany : (s.streams.any fun y => decide (y.sid = sid) && decide (y.st = SState.resuming)) = true := by
+    simp only [List.any_eq_true, Bool.and_eq_true, decide_eq_true_eq]
+    exact ⟨x, hx, hsid, hr⟩
+  simp only [step, hs, hany, ↓reduceIte]
+  refine ⟨?_, ?_, trivial⟩
+  · refine List.mem_map.2 ⟨x, hx, ?_⟩
+    simp [hsid]
+  · intro y hy hne
+    refine List.mem_map.2 ⟨y, hy, ?_⟩
+    simp [hne]
 
 /-- REFUSAL IS LOCAL: a refused resume closes that stream with an error and a notification; the connection and every other
     stream are untouched -/
@@ -59,17 +83,57 @@ theorem C05.refusal_is_local (s : St) (sid : Nat) :
     (∀ y ∈ s.streams, y.sid ≠ sid → y ∈ t.streams) ∧
     (s.status = .connected → ∀ x ∈ s.streams, x.sid = sid → x.st = .resuming →
         { x with st := .closedErr, closedEv := x.closedEv + 1 } ∈ t.streams) := by
-  sorry
+  intro t
+  have key : ∀ t : St, t = step s (.resume sid .refused) →
+      t.status = s.status ∧ t.inc = s.inc ∧ t.disc = s.disc ∧ t.reconn = s.reconn ∧ t.sent = s.sent ∧
+      t.pending = s.pending ∧ (t.streams = s.streams ∨ (s.status = .connected ∧ t.streams = updStream sid (closeOne true) s.streams)) ∧
+      (s.status = .connected → (∃ x ∈ s.streams, x.sid = sid ∧ x.st = .resuming) →
+        t.streams = updStream sid (closeOne true) s.streams) := by
+    intro t ht
+    subst ht
+    cases hst : s.status <;> simp only [step, hst]
+    · split
+      · simp
+      · next hany =>
+        simp only [List.any_eq_true, Bool.and_eq_true, decide_eq_true_eq] at hany
+        simp only [hst, true_and, true_or]
+        intro _ hex
+        exact absurd hex hany
+    · simp
+    · simp
+  obtain ⟨k1, k2, k3, k4, k5, k6, k7, k8⟩ := key t rfl
+  refine ⟨k1, k2, k3, k4, k5, k6, ?_, ?_, ?_⟩
+  · rcases k7 with h | ⟨_, h⟩ <;> rw [h]
+    simp [updStream]
+  · intro y hy hne
+    rcases k7 with h | ⟨_, h⟩ <;> rw [h]
+    · exact hy
+    · refine List.mem_map.2 ⟨y, hy, ?_⟩
+      simp [hne]
+  · intro hc x hx hxs hxr
+    rw [k8 hc ⟨x, hx, hxs, hxr⟩]
+    refine List.mem_map.2 ⟨x, hx, ?_⟩
+    simp [hxs, closeOne, live, hxr]
 
-/-- NEVER SILENTLY DETACHED: in every reachable state a stream is attached, waiting for its resume, or closed with exactly one
-    closed notification; waiting streams exist only after a failure, and a closed stream stays closed -/
+/-- NEVER SILENTLY DETACHED: in every reachable state a stream is attached, waiting for its resume, closed with exactly one
+    closed notification, or ended together with the connection; waiting streams exist only while the connection lives, an
+    error-closed stream presupposes a failure, and a stream ends silently only through the connection's own Close -/
 theorem C05.no_silent_detach (evs : List Ev) :
     ∀ x ∈ (run {} evs).streams,
-      (x.st = .opened ∨ x.st = .resuming → x.closedEv = 0) ∧
+      (x.st = .opened ∨ x.st = .resuming ∨ x.st = .closedConn → x.closedEv = 0) ∧
       (x.st = .closedOk ∨ x.st = .closedErr → x.closedEv = 1) ∧
       (x.st = .opened → (run {} evs).status = .connected) ∧
-      (x.st = .closedErr → 1 ≤ (run {} evs).disc) := by
-  sorry
+      (x.st = .resuming → (run {} evs).status ≠ .closed) ∧
+      (x.st = .closedErr → 1 ≤ (run {} evs).disc) ∧
+      (x.st = .closedConn → (run {} evs).status = .closed) := by
+  intro x hx
+  obtain ⟨h1, h2, h3, h4, h5, h6, _⟩ := (inv_reach evs).i2.2.2 x hx
+  exact ⟨h1, h2, h3, h4, h5, h6⟩
+
+theorem issued_eq_flatMap (evs : List Ev) : issued evs = evs.flatMap reqOf := by
+  induction evs with
+  | nil => rfl
+  | cons e es ih => cases e <;> simp [issued, reqOf, ih]
 
 /-- REQUESTS ARE NOT LOST: every request issued so far has reached the broker, waits for recovery, or was failed — exactly one of
     the three; requests fail only because the connection was closed; nothing waits while the connection is up -/
@@ -77,13 +141,16 @@ theorem C05.requests_not_lost (evs : List Ev) :
     ((run {} evs).sent.map (·.2) ++ (run {} evs).pending ++ (run {} evs).failed).Perm (issued evs) ∧
     ((run {} evs).status ≠ .closed → (run {} evs).failed = []) ∧
     ((run {} evs).status ≠ .reconnecting → (run {} evs).pending = []) := by
-  sorry
+  have h := (inv_reach evs).i1
+  have hp := run_perm {} evs
+  rw [← issued_eq_flatMap] at hp
+  exact ⟨by simpa using hp, h.failed, h.pend⟩
 
 /-- … and a recovery sends everything that waited, in order, on the new transport -/
 theorem C05.recovery_flushes_pending (s : St) (h : s.status = .reconnecting) :
     (step s (.dial true)).sent = s.sent ++ s.pending.map (fun r => (s.inc + 1, r)) ∧ (step s (.dial true)).pending = [] ∧
     (step s (.dial true)).status = .connected := by
-  sorry
+  simp [step, h]
 
 -- non-vacuity: a history with a failed redial, a recovery, one resume answered and one refused
 example : let s := run {} [.openStream .up, .openStream .down, .kill, .request 7, .dial false, .dial true, .resume 1 .ok, .resume 2 .refused]
